@@ -473,6 +473,37 @@ def explore_all(ctx, quick, deep):
                 if ctx.violation('verifierdb:conc:%s' % f[0], 'VerifierDB under real threads: %s' % f[1],
                                  {'kind': 'db-conc', 'pre': jsonable(pre), 'threads': jsonable(threads), 'preempts': list(pp)}):
                     break
+    # ---- VerifierDB on disk (dbm file in a temporary directory, pre-emption points inside the backend)
+    t1 = time.time()
+    ndisk = 0
+    keys_ok, keys_err = C.ondisk_keys_work()
+    if not keys_ok:
+        found_k = ctx.violation('verifierdb:ondisk:keys:TypeError',
+                                'BaseDB.keys() on an on-disk database raises %s (single thread; dbm returns bytes keys on '
+                                'Python 3, the filter calls u.startswith(str))' % keys_err,
+                                {'kind': 'db-ondisk-keys', 'how': 'VerifierDB(file).create(); db[u]=entry; db.keys()'})
+        found = found or found_k
+    disk_scns = [
+        ([('set', 'a', 0)], [[('set', 'b', 1), ('get', 'a')], [('set', 'c', 2), ('del', 'a'), ('in', 'b')]]),
+        ([('set', 'a', 0), ('set', 'b', 1)], [[('del', 'a')], [('set', 'c', 2)], [('get', 'b'), ('set', 'b', 0)]]),
+        ([], [[('set', 'a', 0), ('set', 'a', 1)], [('set', 'b', 2), ('del', 'b')]]),
+        ([('set', 'a', 0)], [[('get', 'a'), ('in', 'a')], [('set', 'a', 1)], [('del', 'a'), ('set', 'a', 2)]]),
+    ]
+    if keys_ok:
+        disk_scns.append(([('set', 'a', 0)], [[('keys',), ('set', 'b', 1)], [('del', 'a'), ('keys',)]]))
+    for di, (pre, threads) in enumerate(disk_scns[:2] if quick else disk_scns):
+        for pp, r in C.explore(lambda pp: C.run_db_schedule(entries, pre, threads, pp, ondisk=True), len(threads), depth,
+                               (110 if quick else 500) * (3 if deep else 1), rng, 4 if quick else 20):
+            ndisk += 1
+            ctx.count('conc-verifierdb-ondisk', 1, [(di, tuple(r['sched'].switches))])
+            f = C.check_db_run(pre, threads, r)
+            if f:
+                found = True
+                if ctx.violation('verifierdb:ondisk:%s' % f[0], 'on-disk VerifierDB under real threads: %s' % f[1],
+                                 {'kind': 'db-conc', 'ondisk': True, 'pre': jsonable(pre), 'threads': jsonable(threads),
+                                  'preempts': list(pp)}):
+                    break
+    ctx.log('VerifierDB on disk: %d schedules, %.1fs' % (ndisk, time.time() - t1))
     # sequential VerifierDB against a dictionary
     for _ in range(40 if quick else 400):
         ops = []
@@ -480,8 +511,11 @@ def explore_all(ctx, quick, deep):
             kind = rng.choice(['set', 'set', 'get', 'del', 'in', 'keys'])
             ops.append(('keys',) if kind == 'keys' else ('set', rng.choice('abc'), rng.randrange(3)) if kind == 'set'
                        else (kind, rng.choice('abc')))
-        r = C.run_db_schedule(entries, [], [ops], ())
-        ctx.count('seq-verifierdb', 1, [tuple(o[0] for o in ops)])
+        disk = _ % 4 == 0
+        if disk and not keys_ok:
+            ops = [o for o in ops if o[0] != 'keys'] or [('in', 'a')]
+        r = C.run_db_schedule(entries, [], [ops], (), ondisk=disk)
+        ctx.count('seq-verifierdb', 1, [(disk,) + tuple(o[0] for o in ops)])
         f = C.check_db_run([], [ops], r)
         if f:
             found = True
@@ -573,13 +607,17 @@ def replay(ctx, path):
         print('switches:', run_['sched'].switches)
         print('property failure:', f)
         return 1 if f else 0
+    if kind == 'db-ondisk-keys':
+        ok, err = C.ondisk_keys_work()
+        print('keys() on an on-disk database:', 'works' if ok else err)
+        return 0 if ok else 1
     if kind == 'db-conc':
         entries = C.make_entries(3)
         pre = [tuple(x) for x in r['pre']]
         threads = [[tuple(x) for x in th] for th in r['threads']]
-        run_ = C.run_db_schedule(entries, pre, threads, [tuple(p) for p in r['preempts']])
+        run_ = C.run_db_schedule(entries, pre, threads, [tuple(p) for p in r['preempts']], ondisk=r.get('ondisk', False))
         f = C.check_db_run(pre, threads, run_)
-        print('results:', run_['results'], 'final:', run_['final'])
+        print('results:', run_['results'], 'final:', run_['final'], 'reopened:', run_.get('reopened'))
         print('property failure:', f)
         return 1 if f else 0
     print('nothing to replay: %s' % r.get('what'))
